@@ -454,4 +454,53 @@ def measureQuery (parts : List (List MRow)) (sids : List Nat) (minTS maxTS : Int
   qrPullAll (qrLt byTS asc sids) (heapSize h + 1) h
 
 
+
+/-! ### 7. trace: merge of the ordered streams of several sidx instances (`banyand/trace/streaming_pipeline.go`) -/
+
+/-- `req.Order` of a trace sidx request: nil, or `Sort` ∈ {UNSPECIFIED, ASC, DESC}. -/
+inductive SortDir where
+  | none | unspec | asc | desc
+deriving DecidableEq, Repr
+
+/-- `sidx.extractOrdering` and `newSIDXStreamRunner` agree: everything except DESC is ascending. -/
+def SortDir.ascending : SortDir → Bool
+  | .desc => false
+  | _ => true
+
+def defaultTraceBatchSize : Nat := 64
+
+/-- `newSIDXStreamRunner`: batch size of the merged stream -/
+def traceBatchSize (maxBatch maxTrace : Nat) : Nat :=
+  if maxBatch > 0 then maxBatch else if maxTrace > 0 then maxTrace else defaultTraceBatchSize
+
+/-- `sidxStreamRunner.run` on already opened shard streams: pop the shard whose current key is `Less`-minimal,
+    take its current (key, trace id) unless the id was seen, advance, push back; batches of `batchSize`. -/
+def traceMergeStreams (asc : Bool) (batchSize : Nat) (streams : List (List Elem)) : List (List Elem) :=
+  chunk batchSize (dedupData [] (kmerge (elemLt asc) streams))
+
+/-- `streamSIDXTraceBatches`: one `StreamingQuery` per sidx instance (series 1; one mem part per element list). -/
+def traceStreamSIDX (dir : SortDir) (maxBatch maxTrace : Nat) (instances : List (List (List Elem))) : List (List Elem) :=
+  let req : Req := { sids := [1], minKey := none, maxKey := none, asc := dir.ascending, maxBatch := maxBatch }
+  let streams := instances.map fun parts =>
+    (streamingQuery req (applyOps ((parts.zipIdx).map fun (es, i) => Op.write (i + 1) es))).flatten
+  traceMergeStreams dir.ascending (traceBatchSize maxBatch maxTrace) streams
+
+/-! ### 8. stream row-path `limit.Execute` over a paged source (`pkg/query/logical/stream/stream_analyzer.go`) -/
+
+/-- the accumulation loop `for len(all) < limit+offset { page := Execute(); if empty break; all += page[:needed] }`
+    (`pages` = what successive `Execute` calls of the input plan return) -/
+def limitLoop {α : Type} (target : Nat) : List (List α) → List α → List α
+  | [], acc => acc
+  | p :: ps, acc =>
+    if acc.length < target then
+      if p.isEmpty then acc else limitLoop target ps (acc ++ p.take (target - acc.length))
+    else acc
+
+/-- `limit.Execute` over `localIndexScan`: every storage pull is capped at `MaxElementSize = limit+offset`
+    (`PushDownMaxSize`), empty pulls are skipped by `BuildElementsFromStreamResult`. -/
+def streamLimit {α : Type} (offset limit : Nat) (pulls : List (List α)) : List α :=
+  let pages := (pulls.map fun p => if offset + limit > 0 then p.take (limit + offset) else p).filter fun p => !p.isEmpty
+  let all := limitLoop (limit + offset) pages []
+  if all.length ≤ offset then [] else (all.take (min (offset + limit) all.length)).drop offset
+
 end Banyan.C09
